@@ -137,7 +137,8 @@ theorem below_complete (s : PState) (c : Completion) (k : Bytes) : below (comple
       | ok => simp [hk]
       | err =>
         simp only
-        cases hm : Buf.get (List.take c.applied f.sorted) k with
+        generalize (if s.cfg.layer = true then 0 else c.applied) = n
+        cases hm : Buf.get (List.take n f.sorted) k with
         | none => simp
         | some v =>
           have h1 := Buf.get_some_mem hm
@@ -1441,6 +1442,291 @@ theorem tasks_cover : ∀ (splits : List Bytes) (lo key end_ k : Bytes),
         · exact Or.inl h4
         · exact Or.inr (fun hm => h4 (List.mem_cons_of_mem _ hm))
       exact tasks_cover rest hi key end_ k (le_of_not_lt hk') h2 h3 h4'
+
+/-! ## a failure stays in `errCh` until a call returns it -/
+
+theorem step_err_persists {s : PState} {sp : Spec} (op : Op) (h : Inv2 s sp) (he : s.errCh = some .err) :
+    (step s op).2 = .errFlush ∨ (step s op).1.errCh = some .err := by
+  obtain ⟨hfl, hr⟩ := h.errFl (by rw [he]; rfl)
+  cases op with
+  | set k v => right; simp only [step]; split <;> exact he
+  | del k => right; exact he
+  | get k => right; exact he
+  | batchGet ks => right; simp only [step]; rw [batchGet_fields]; exact he
+  | flush force mem late =>
+    simp only [step]
+    rcases doFlush_cases s force mem late with hd | ⟨_, hd⟩ | ⟨_, _, hd⟩ | ⟨hf, _, _⟩
+    · right; rw [hd]; exact he
+    · right; rw [hd]; exact he
+    · left; rw [hd, await_of_not_running late (by exact hr)]
+      unfold flushAfterWait failWith; simp [he]
+    · rw [hf] at hfl; cases hfl
+  | flushDone c => right; simp only [step]; simp [hr]; exact he
+  | flushWait late =>
+    simp only [step]
+    rcases doFlushWait_cases s late with ⟨_, hd⟩ | ⟨hf, _⟩
+    · left; rw [hd, await_of_not_running late hr]
+      unfold waitAfter failWith; simp [he]
+    · rw [hf] at hfl; cases hfl
+  | stage => right; exact he
+  | release => right; exact he
+  | cleanup => right; simp only [step]; split <;> exact he
+
+theorem err_never_lost {s : PState} {sp : Spec} (ops : List Op) (h : Inv2 s sp) (he : s.errCh = some .err) :
+    .errFlush ∈ runOuts s ops ∨ (run s ops).errCh = some .err := by
+  induction ops generalizing s sp with
+  | nil => right; exact he
+  | cons op ops ih =>
+    unfold runOuts run
+    rcases step_err_persists op h he with h1 | h1
+    · left; rw [h1]; simp
+    · rcases ih (inv2_step op h) h1 with h2 | h2
+      · left; exact List.mem_cons_of_mem _ h2
+      · right; exact h2
+
+/-! ## callback layer: while the TTL manager has not been started the primary holds no lock in the store -/
+
+structure Inv3 (s : PState) : Prop where
+  unlocked : s.ttl = .uninit → s.store.get s.primary = none
+  noPrimary : s.primary = [] → ∀ k v, s.store.get k = some v → k = []
+  batch : s.running = true → s.primary = [] → ∀ f, s.flushing = some f → ∀ k v, f.get k = some v → k = []
+
+theorem inv3_congr {s s' : PState} (h : Inv3 s) (h1 : s'.ttl = s.ttl) (h2 : s'.primary = s.primary)
+    (h3 : s'.store = s.store) (h4 : s'.flushing = s.flushing) (h5 : s'.running = s.running) : Inv3 s' :=
+  ⟨by rw [h1, h2, h3]; exact h.unlocked, by rw [h2, h3]; exact h.noPrimary, by rw [h2, h4, h5]; exact h.batch⟩
+
+theorem Buf.get_none_of_not_key {b : Buf} {k : Bytes} (h : b.keys.contains k = false) : b.get k = none := by
+  cases hg : b.get k with
+  | none => rfl
+  | some v =>
+    have hm := Buf.get_some_mem hg
+    have : k ∈ b.keys := List.mem_map.mpr ⟨(k, v), hm, rfl⟩
+    have : b.keys.contains k = true := List.contains_iff_mem.mpr this
+    rw [h] at this; cases this
+
+theorem inv3_complete {s : PState} (c : Completion) (hl : s.cfg.layer = true) (h : Inv3 s) (hr : s.running = true) :
+    Inv3 (complete s c) := by
+  cases hf : s.flushing with
+  | none =>
+    have : complete s c = s := by unfold complete; simp [hf]
+    rw [this]; exact h
+  | some f =>
+    have hrun : (complete s c).running = false := (complete_of_flushing c hf).1
+    have hprim : (complete s c).primary = s.primary := by unfold complete; simp [hf]
+    cases hres : c.res with
+    | ok =>
+      have hstore : (complete s c).store = s.store.apply f := (complete_of_flushing c hf).2.2 hres
+      have httl : (complete s c).ttl = if (s.ttl == .uninit && f.keys.contains s.primary) = true then .running else s.ttl := by
+        unfold complete; simp [hf, hl, hres]
+      refine ⟨?_, ?_, ?_⟩
+      · intro hu
+        by_cases hc : (s.ttl == .uninit && f.keys.contains s.primary) = true
+        · rw [httl, if_pos hc] at hu; cases hu
+        · rw [httl, if_neg hc] at hu
+          have hnc : f.keys.contains s.primary = false := by
+            cases hcc : f.keys.contains s.primary with
+            | false => rfl
+            | true => exact absurd (by rw [hu, hcc]; rfl) hc
+          rw [hprim, hstore, Buf.get_apply, Buf.get_none_of_not_key hnc, h.unlocked hu]; rfl
+      · intro hp k v hk
+        rw [hprim] at hp
+        rw [hstore, Buf.get_apply] at hk
+        cases hfk : f.get k with
+        | some w => exact h.batch hr hp f hf k w hfk
+        | none => rw [hfk] at hk; exact h.noPrimary hp k v hk
+      · intro hr'; rw [hrun] at hr'; cases hr'
+    | err =>
+      have hstore : (complete s c).store = s.store := by unfold complete; simp [hf, hl, hres, Buf.apply]
+      have httl : (complete s c).ttl = if (s.ttl == .running) = true then .closed else s.ttl := by
+        unfold complete; simp [hf, hl, hres]
+      refine ⟨?_, ?_, ?_⟩
+      · intro hu
+        by_cases hc : (s.ttl == .running) = true
+        · rw [httl, if_pos hc] at hu; cases hu
+        · rw [httl, if_neg hc] at hu
+          rw [hprim, hstore]; exact h.unlocked hu
+      · intro hp; rw [hprim] at hp; rw [hstore]; exact h.noPrimary hp
+      · intro hr'; rw [hrun] at hr'; cases hr'
+
+theorem find_getD_empty {ks : List Bytes} (h : (ks.find? (fun k => !k.isEmpty)).getD [] = []) : ∀ k ∈ ks, k = [] := by
+  cases hf : ks.find? (fun k => !k.isEmpty) with
+  | none =>
+    intro k hk
+    have := List.find?_eq_none.mp hf k hk
+    simpa using this
+  | some x =>
+    rw [hf] at h
+    have hx := List.find?_some hf
+    simp at h; subst h; simp at hx
+
+theorem inv3_start {s : PState} (hl : s.cfg.layer = true) (h : Inv3 s) : Inv3 (start s).1 := by
+  unfold start
+  by_cases h2 : s.ttl = .closed
+  · simp only [hl, h2, if_true, beq_self_eq_true]
+    exact ⟨(by intro hu; cases hu), h.noPrimary, (by intro hr'; cases hr')⟩
+  · have h2' : (s.ttl == TTL.closed) = false := by simpa using h2
+    by_cases h3 : s.mbuf.isEmpty = true
+    · simp only [hl, h2', h3, if_true, Bool.false_eq_true, if_false]
+      exact ⟨h.unlocked, h.noPrimary, (by intro hr'; cases hr')⟩
+    · simp only [hl, h2', h3, if_true, Bool.false_eq_true, if_false]
+      by_cases hp : s.primary.isEmpty = true
+      · have hp' : s.primary = [] := by simpa using hp
+        simp only [hp, if_true]
+        refine ⟨?_, ?_, ?_⟩
+        · intro hu
+          cases hg : s.store.get ((s.mbuf.sorted.keys.find? fun k => !k.isEmpty).getD []) with
+          | none => rfl
+          | some v =>
+            have hk0 := h.noPrimary hp' _ v hg
+            have hun := h.unlocked hu
+            rw [hp'] at hun
+            rw [hk0, hun] at hg; cases hg
+        · intro _; exact h.noPrimary hp'
+        · intro _ hfirst f hf k v hk
+          injection hf with hf; subst hf
+          have hall := find_getD_empty hfirst
+          have hm : (k, v) ∈ s.mbuf.sorted := mem_sorted.mpr (Buf.get_some_mem hk)
+          exact hall k (List.mem_map.mpr ⟨(k, v), hm, rfl⟩)
+      · have hp' : s.primary ≠ [] := by simpa using hp
+        simp only [hp]
+        exact ⟨h.unlocked, h.noPrimary, (by intro _ hpe; exact absurd hpe hp')⟩
+
+theorem inv3_await {s : PState} (c : Completion) (hl : s.cfg.layer = true) (h : Inv3 s) : Inv3 (await s c) := by
+  unfold await
+  by_cases hr : s.running = true
+  · simp only [hr, if_true]; exact inv3_complete c hl h hr
+  · simp only [hr]; exact h
+
+theorem inv3_clear {s : PState} (h : Inv3 s) (fl : Bool) (le : Option Reported) :
+    Inv3 { s with flushing := none, errCh := none, failed := fl, lastErr := le } :=
+  ⟨h.unlocked, h.noPrimary, by intro _ _ f hf; cases hf⟩
+
+theorem inv3_step {s : PState} (op : Op) (hl : s.cfg.layer = true) (h : Inv3 s) : Inv3 (step s op).1 := by
+  cases op with
+  | set k v => simp only [step]; split
+               · exact h
+               · exact inv3_congr h rfl rfl rfl rfl rfl
+  | del k => exact inv3_congr h rfl rfl rfl rfl rfl
+  | get k => exact h
+  | batchGet ks => simp only [step]; rw [batchGet_fields]; exact inv3_congr h rfl rfl rfl rfl rfl
+  | flush force mem late =>
+    simp only [step]
+    have h1 : Inv3 { s with cache := none } := inv3_congr h rfl rfl rfl rfl rfl
+    rcases doFlush_cases s force mem late with hd | ⟨_, hd⟩ | ⟨_, _, hd⟩ | ⟨_, _, hd⟩
+    · rw [hd]; exact h1
+    · rw [hd]; exact h1
+    · rw [hd]
+      have h2 := inv3_await late (s := { s with cache := none }) hl h1
+      rcases flushAfterWait_cases (await { s with cache := none } late) with ⟨_, he⟩ | ⟨_, he⟩
+      · rw [he]; exact inv3_clear h2 true _
+      · rw [he]; exact inv3_start (by rw [await_cfg]; exact hl) h2
+    · rw [hd]; exact inv3_start hl h1
+  | flushDone c =>
+    simp only [step]
+    by_cases hr : s.running = true
+    · simp only [hr, if_true]; exact inv3_complete c hl h hr
+    · simp only [hr]; exact h
+  | flushWait late =>
+    simp only [step]
+    rcases doFlushWait_cases s late with ⟨_, hd⟩ | ⟨_, hd⟩
+    · rw [hd]
+      have h2 := inv3_await late hl h
+      rcases waitAfter_cases (await s late) with ⟨_, he⟩ | ⟨_, he⟩
+      · rw [he]; exact inv3_clear h2 true _
+      · rw [he]; exact inv3_clear h2 _ _
+    · rw [hd]; exact h
+  | stage => exact inv3_congr h rfl rfl rfl rfl rfl
+  | release => exact inv3_congr h rfl rfl rfl rfl rfl
+  | cleanup => simp only [step]; split <;> exact inv3_congr h rfl rfl rfl rfl rfl
+
+theorem inv3_run (s : PState) (ops : List Op) (hl : s.cfg.layer = true) (h : Inv3 s) : Inv3 (run s ops) := by
+  induction ops generalizing s with
+  | nil => exact h
+  | cons op ops ih => unfold run; exact ih _ (by rw [step_cfg]; exact hl) (inv3_step op hl h)
+
+theorem inv3_init (cfg : Cfg) : Inv3 (init cfg) :=
+  ⟨fun _ => rfl, fun _ k v hk => (by cases hk), fun hr => (by cases hr)⟩
+
+theorem run_append (s : PState) (a b : List Op) : run s (a ++ b) = run (run s a) b := by
+  induction a generalizing s with
+  | nil => rfl
+  | cons op a ih => simp only [List.cons_append, run]; exact ih _
+
+theorem complete_ttl_started {s : PState} (c : Completion) (h : s.ttl ≠ .uninit) : (complete s c).ttl ≠ .uninit := by
+  unfold complete
+  split
+  · exact h
+  · simp only
+    split
+    · cases hr : c.res with
+      | ok =>
+        simp only
+        have : (s.ttl == TTL.uninit) = false := by simpa using h
+        simp [this]; exact h
+      | err =>
+        simp only
+        split
+        · intro hc; cases hc
+        · exact h
+    · exact h
+
+/-- a failing flush function closes the TTL manager exactly when it had been started -/
+theorem complete_err_closed_iff {s : PState} {f : Buf} (c : Completion) (hl : s.cfg.layer = true)
+    (hf : s.flushing = some f) (hc : c.res = .err) : (complete s c).ttl = .closed ↔ s.ttl ≠ .uninit := by
+  unfold complete
+  simp only [hf, hl, hc, if_true]
+  cases s.ttl <;> simp
+
+/-- the successful flush of the batch that holds the primary starts the TTL manager -/
+theorem complete_ok_starts {s : PState} {f : Buf} (c : Completion) (hl : s.cfg.layer = true)
+    (hf : s.flushing = some f) (hc : c.res = .ok) (hp : f.keys.contains s.primary = true) :
+    (complete s c).ttl ≠ .uninit := by
+  unfold complete
+  simp only [hf, hl, hc, if_true, hp, Bool.and_true]
+  cases s.ttl <;> simp
+
+theorem await_ttl_started {s : PState} (c : Completion) (h : s.ttl ≠ .uninit) : (await s c).ttl ≠ .uninit := by
+  unfold await; split
+  · exact complete_ttl_started c h
+  · exact h
+
+theorem step_ttl_started (s : PState) (op : Op) (h : s.ttl ≠ .uninit) : (step s op).1.ttl ≠ .uninit := by
+  cases op with
+  | set k v => simp only [step]; split <;> exact h
+  | del k => exact h
+  | get k => exact h
+  | batchGet ks => simp only [step]; rw [batchGet_fields]; exact h
+  | flush force mem late =>
+    simp only [step]
+    rcases doFlush_cases s force mem late with hd | ⟨_, hd⟩ | ⟨_, _, hd⟩ | ⟨_, _, hd⟩
+    · rw [hd]; exact h
+    · rw [hd]; exact h
+    · rw [hd]
+      have h2 : (await { s with cache := none } late).ttl ≠ .uninit := await_ttl_started late h
+      rcases flushAfterWait_cases (await { s with cache := none } late) with ⟨_, he⟩ | ⟨_, he⟩
+      · rw [he]; exact h2
+      · rw [he, (start_cases _).1]; exact h2
+    · rw [hd, (start_cases _).1]; exact h
+  | flushDone c => simp only [step]; split
+                   · exact complete_ttl_started c h
+                   · exact h
+  | flushWait late =>
+    simp only [step]
+    have h2 : (await s late).ttl ≠ .uninit := await_ttl_started late h
+    rcases doFlushWait_cases s late with ⟨_, hd⟩ | ⟨_, hd⟩
+    · rw [hd]
+      rcases waitAfter_cases (await s late) with ⟨_, he⟩ | ⟨_, he⟩
+      · rw [he]; exact h2
+      · rw [he]; exact h2
+    · rw [hd]; exact h
+  | stage => exact h
+  | release => exact h
+  | cleanup => simp only [step]; split <;> exact h
+
+theorem run_ttl_started (s : PState) (ops : List Op) (h : s.ttl ≠ .uninit) : (run s ops).ttl ≠ .uninit := by
+  induction ops generalizing s with
+  | nil => exact h
+  | cons op ops ih => unfold run; exact ih _ (step_ttl_started s op h)
 
 theorem down_pairwise : ∀ n, (down n).Pairwise (· > ·) ∧ ∀ g ∈ down n, 1 ≤ g ∧ g ≤ n
   | 0 => ⟨List.Pairwise.nil, by simp [down]⟩
